@@ -472,6 +472,17 @@ func (s *SMSValidator) validateCode(w http.ResponseWriter, r *http.Request, user
 
 		logger.Infof("user %s disabled sms 2fa", user.GetPID())
 	case PageSMSValidate:
+		// This step completes the login that the password step started, so
+		// the modules that can veto a login (lock, confirm) get to do so here
+		// too: the account may have been locked by failed codes meanwhile.
+		r = r.WithContext(context.WithValue(r.Context(), authboss.CTXKeyUser, user))
+		handled, err := s.Authboss.Events.FireBefore(authboss.EventAuth, w, r)
+		if err != nil {
+			return err
+		} else if handled {
+			return nil
+		}
+
 		authboss.PutSession(w, authboss.SessionKey, user.GetPID())
 		authboss.PutSession(w, authboss.Session2FA, "sms")
 
@@ -481,8 +492,7 @@ func (s *SMSValidator) validateCode(w http.ResponseWriter, r *http.Request, user
 
 		logger.Infof("user %s sms 2fa success", user.GetPID())
 
-		r = r.WithContext(context.WithValue(r.Context(), authboss.CTXKeyUser, user))
-		handled, err := s.Authboss.Events.FireAfter(authboss.EventAuth, w, r)
+		handled, err = s.Authboss.Events.FireAfter(authboss.EventAuth, w, r)
 		if err != nil {
 			return err
 		} else if handled {
